@@ -47,12 +47,12 @@ def run(prop, tier, seed, rule, assumptions, shards=4, isolate=True, fields=True
     ck.notes["vectors_generated"], ck.notes["vectors_replayed"] = total, kept
     ck.binary = vlib.build_harness()
     rr = vlib.run_harness(ck.binary, prop, vec, seed=seed, tier=tier, shards=shards, timeout=timeout, isolate=isolate)
-    os.unlink(vec)
     ck.absorb(rr)
     for cr in rr.crashes:
         ck.violations.append(({"t": "div", "prop": prop, "api": "process", "want": "no fatal error",
                                "got": "fatal: " + cr["stderr"][:400], "case": {"vector_index": cr["index"]}}, 1))
-    ck.triage(rr.divs)
+    ck.triage(rr.divs, rerun=rr.again)
+    os.unlink(vec)
     ck.exhaustive = kept == total
     ck.rule = rule
     ck.assumptions = assumptions
